@@ -1,6 +1,27 @@
 """C08 — equality and inequality compare whole polynomials."""
+import json, os
+import checklib as cl
 import exprcheck as xc
 import props
+
+
+def translators(repo):
+    """source-level tie of expr::operator bool: Generated/BoolAst.lean is re-translated from clang's AST on every run (12
+    instantiations that must give the same text; the translation unit also static_asserts is_eqmod / elt_count / degree /
+    nmoduli); the equality with Ex.exprToBoolM (Proofs/BoolAstEq.lean) and the transported C08 statements
+    (Properties/C08Ast.lean) are then re-checked by `lake build`."""
+    r = cl.run(["python3", os.path.join(cl.HERE, "gen_bool_ast.py"), "--repo", repo])
+    info = {"ok": r.returncode == 0}
+    if r.returncode != 0:
+        info["err"] = (r.stdout + r.stderr)[-2000:]
+    else:
+        try:
+            info.update(json.loads(r.stdout.strip().splitlines()[-1]))
+            info.pop("node_kinds", None)
+        except Exception as e:
+            info["ok"] = False
+            info["err"] = "unparsable summary: %s" % e
+    return {"gen_bool_ast": info}
 
 
 def streams(ctx, res):
@@ -12,7 +33,7 @@ def search(ctx, res, problems):
 
 
 PROP = {
-    "streams": streams, "search": search,
+    "streams": streams, "search": search, "translators": translators,
     "rule": "generated C++ translation units: bool(l == r), bool(l != r), bool(e) for poly / poly_p / expression on either side "
             "(fixed shapes + random trees predicted to compile), driven through data patterns built by construction: equal pairs, pairs differing in "
             "exactly one residue at every position (quick: 12 positions incl. first/last/modulus boundary), pairs equal in exactly one residue, unrelated "
@@ -31,6 +52,11 @@ PROP = {
     "trusted_base": props.COMMON_TB + [
         "C++ overload resolution / template matching is observed per generated TU, not modelled (which of poly_p's operator== overloads is chosen is visible in the op name the harness prints)",
         "GCC vector extension: == / != on __m128i/__m256i compare 64-bit lanes and yield all-ones/zero lanes (modelled in cmpWord; observed by the stream in the sse/avx2 builds)",
+        "source-level tie of expr::operator bool (the three loops, their bounds and strides, the early return, the is_eqmod ternary, the final return): clang++-14's typed AST "
+        "(-ast-dump=json, -mavx2 -DNTT_AVX2 -DNTT_SSE) of 12 instantiations, tools/gen_bool_ast.py's traversal, the loop semantics lean/NflVerif/Model/CSemBool.lean (forRet: "
+        "first return in iteration order; fuel 2^64 = states of a size_t counter) + size_t arithmetic of CSem.lean; BY NAME: simd_mode::store(tmp, load<simd_mode>(cm, j)) = the "
+        "abstract `stored cm j` (the kernels behind it are C05 / Compose2's subject, the hand model's rootWord is plugged in); class constants are parameters, tied to the hand "
+        "model's values by static_asserts compiled with the translation unit; poly::operator bool (core.hpp, std::find_if) is NOT translated",
     ],
     "assumptions": ["rows have the size of a polynomial; for expression operands: the C07 admissibility hypotheses (canonical operands, precomputed quotients)",
                     "degree is a multiple of the register width of the mode the comparison is evaluated in (static_assert in the library)"],
